@@ -463,8 +463,8 @@ refcheck_dump(void) {
 		r_and(&t, &a, &b); printf("R\tand\t%s\t%s\t%s\n", HX(&a, hx1), HX(&b, hx2), HX(&t, hx3));
 		r_xor(&t, &a, &b); printf("R\txor\t%s\t%s\t%s\n", HX(&a, hx1), HX(&b, hx2), HX(&t, hx3));
 		r_mul(&t, &a, &b); r_isqrt(&q, &t); printf("R\tisqrt\t%s\t0\t%s\n", HX(&t, hx1), HX(&q, hx3));
-		r_shl(&t, &a, (int)(j % 200)); r_set_u64(&q, j % 200); printf("R\tshl\t%s\t%s\t%s\n", HX(&a, hx1), HX(&q, hx2), HX(&t, hx3));
-		r_shr(&t, &a, (int)(j % 200)); printf("R\tshr\t%s\t%s\t%s\n", HX(&a, hx1), HX(&q, hx2), HX(&t, hx3));
+		r_shl(&t, &a, (int)(j % 48)); r_set_u64(&q, j % 48); printf("R\tshl\t%s\t%s\t%s\n", HX(&a, hx1), HX(&q, hx2), HX(&t, hx3));
+		r_shr(&t, &a, (int)(j % 48)); printf("R\tshr\t%s\t%s\t%s\n", HX(&a, hx1), HX(&q, hx2), HX(&t, hx3));
 	}
 	printf("R\tovf\t%x\t0\t0\n", r_ovf);
 }
